@@ -534,6 +534,10 @@ class KTHierarchyPropagator:
         """
         rhot = DensityMatrixEvolution(timeaxis=self.timeaxis, rhoi=rhoi)
         
+        # every propagation starts from empty auxiliary density operators;
+        # whatever a previous run left in the hierarchy must not leak in
+        self.hy.reset_ados()
+        
         if free_hierarchy:
             
             # first act with lifting superoperators
